@@ -123,6 +123,17 @@ pub fn gen(tier: &str, seed: u64, out: &mut dyn FnMut(Value)) {
         let r = SRule { name: "r".into(), ops: operands(&VARS), cond, ..Default::default() };
         out(json!({"op": "scenario", "rules": [r.to_json(&mut rng)], "events": evj, "tag": "absent/empty", "nt": true}));
     }
+    // a rule without operands: quantifiers range over nothing (all / none / 0 of hold, any / N>=1 do not)
+    for f in with_neg(quantifier_leaves()) {
+        for explicit_empty in [false, true] {
+            let r = SRule { name: "r".into(), ops: vec![], cond: Some(f.clone()), ..Default::default() };
+            let mut j = r.to_json(&mut rng);
+            if explicit_empty {
+                j["matches"] = json!([]);
+            }
+            out(json!({"op": "scenario", "rules": [j], "events": evj[..2], "tag": "no operands", "nt": true}));
+        }
+    }
     // every quantifier form alone, negated, and combined with a variable
     let q = quantifier_leaves();
     for f in with_neg(q.clone()) {
